@@ -36,6 +36,7 @@ type Cand struct {
 	Cond     string
 	Fn       *ssa.Function
 	Bindings []Val
+	PreArgs  []Val // receiver of a bound method, passed before the call's own arguments
 	Unknown  bool
 }
 
@@ -306,7 +307,11 @@ func (c *FnCtx) dispatchCall(cands []Cand, args []Val, cc *ssa.CallCommon, resTy
 			c.havocAll("table row with unresolved function value")
 			r = c.havocVal("dyn", resType)
 		} else {
-			r = c.staticCall(cd.Fn, cd.Bindings, args, cc, resType, pos)
+			as := args
+			if len(cd.PreArgs) > 0 {
+				as = append(append([]Val{}, cd.PreArgs...), args...)
+			}
+			r = c.staticCall(cd.Fn, cd.Bindings, as, cc, resType, pos)
 		}
 		brs = append(brs, br{cd.Cond, r, copyState(c.st)})
 	}
